@@ -932,9 +932,15 @@ static void gen_expr(Node *node) {
     cmp_zero(node->cond->ty);
     println("  je .L.else.%d", c);
     gen_expr(node->then);
+    // If only one operand is void, the expression is void and the
+    // value of the other operand is not used.
+    if (node->ty->kind == TY_VOID)
+      discard(node->then->ty);
     println("  jmp .L.end.%d", c);
     println(".L.else.%d:", c);
     gen_expr(node->els);
+    if (node->ty->kind == TY_VOID)
+      discard(node->els->ty);
     println(".L.end.%d:", c);
     return;
   }
